@@ -25,6 +25,7 @@ func main() {
 	show := flag.Int("show", 5, "examples to print")
 	canonical := flag.Bool("canonical", false, "fmt-canonical profile")
 	grep := flag.String("grep", "", "only show differences containing this")
+	maxlen := flag.Int("maxlen", 100000, "only show documents up to this many bytes")
 	fmtMode := flag.Bool("fmt", false, "check Format clause 2 instead of comparing with goldmark")
 	no := flag.String("no", "", "comma-separated constructs to exclude")
 	flag.Parse()
@@ -38,7 +39,13 @@ func main() {
 	sig := map[string]int{}
 	for i := 0; i < *n; i++ {
 		r := core.NewRand(core.Mix(*seed, uint64(i)))
-		d := model.Generate(r, model.Profile{Canonical: *canonical})
+		prof := model.Profile{Canonical: *canonical, No: map[string]bool{}}
+		for _, x := range strings.Split(*no, ",") {
+			if x != "" {
+				prof.No[x] = true
+			}
+		}
+		d := model.Generate(r, prof)
 		var buf bytes.Buffer
 		if err := md.Convert([]byte(d.Markdown), &buf); err != nil {
 			panic(err)
@@ -63,9 +70,9 @@ func main() {
 				diff = diff[:70]
 			}
 			sig[diff]++
-			if (*grep == "" || bytes.Contains([]byte(diff), []byte(*grep))) && shown < *show {
+			if (*grep == "" || bytes.Contains([]byte(diff), []byte(*grep))) && shown < *show && len(d.Markdown) <= *maxlen {
 				shown++
-				fmt.Printf("--- doc %d\n%s\n--- model\n%s\n--- goldmark\n%s\n--- diff: %s\n", i, d.Markdown, d.HTML, buf.String(), diff)
+				fmt.Printf("--- doc %d\n%q\n--- model\n%s\n--- goldmark\n%s\n--- diff: %s\n", i, d.Markdown, d.HTML, buf.String(), diff)
 			}
 		}
 	}
